@@ -27,6 +27,7 @@ type watcher struct {
 	gids      map[int]bool // background goroutines created by NewWatcher
 	evClosed  bool
 	errClosed bool
+	closed    bool // Close was called (the descriptor number may be reused from now on)
 	reqCap    int
 }
 
@@ -257,8 +258,11 @@ func (n *names) tok(real string) string {
 	if t, ok := n.r2t[real]; ok {
 		return t
 	}
-	if real == "." || real == ".." || real == "" {
-		return "?" + real
+	if real == "." || real == ".." {
+		return real
+	}
+	if real == "" {
+		return "?"
 	}
 	h := hex.EncodeToString([]byte(real))
 	if len(h) > 48 {
@@ -582,7 +586,7 @@ func (s *scen) quiesce() bool {
 func (s *scen) sample() (sig string, busy bool) {
 	gs := goroutines()
 	var sb strings.Builder
-	iowait := false
+	iowait := map[int]bool{}
 	for _, g := range gs {
 		if !g.lib {
 			continue
@@ -591,13 +595,17 @@ func (s *scen) sample() (sig string, busy bool) {
 			return "", true
 		}
 		if g.state == "IO wait" {
-			iowait = true
+			iowait[g.id] = true
 		}
 		fmt.Fprintf(&sb, "%d:%s;", g.id, g.state)
 	}
-	if iowait {
-		for _, w := range s.ws {
-			if w.W != nil && !w.evClosed && isInotify(w.fd) && fionread(w.fd) > 0 {
+	// A reader parked in the poller must have nothing left to read.
+	for _, w := range s.ws {
+		if w.W == nil || w.closed {
+			continue
+		}
+		for id := range w.gids {
+			if iowait[id] && isInotify(w.fd) && fionread(w.fd) > 0 {
 				return "", true
 			}
 		}
@@ -982,6 +990,9 @@ func (s *scen) stepCall(st *Step) {
 	}
 	pc := &pendingCall{done: make(chan J, 1), op: st.Op, w: st.W}
 	W := w.W
+	if st.Op == "close" {
+		w.closed = true
+	}
 	go func() {
 		r := J{}
 		switch st.Op {
@@ -1204,10 +1215,12 @@ func (s *scen) stepObs(st *Step) {
 			line["paths"] = s.tokList(ps)
 			line["danglers"] = d
 		}
-		marks, open := s.marks(w.fd)
-		line["marks"] = marks
-		line["fdopen"] = open
-		line["fion"] = fionread(w.fd)
+		if !w.closed { // afterwards the descriptor number may belong to someone else
+			marks, open := s.marks(w.fd)
+			line["marks"] = marks
+			line["fdopen"] = open
+			line["fion"] = fionread(w.fd)
+		}
 		line["cap"] = cap(w.W.Events)
 		line["len"] = len(w.W.Events)
 		rd := "gone"
